@@ -423,10 +423,13 @@ def execute(case):
             c = urllib3.ProxyManager("http://%s:%d" % PROXY, ssl_context=_ctx(), **ctor_kw)
             url = origin_url(start) + path
         elif client == "HTTPConnectionPool":
+            # pool_port "omitted": the pool is built from the host alone (its port is None and stands for the scheme's
+            # default) - only meaningful when the start origin uses the default port
+            pargs = (host,) if case.get("pool_port") == "omitted" else (host, port)
             if sch == "https":
-                c = HTTPSConnectionPool(host, port, ssl_context=_ctx(), **ctor_kw)
+                c = HTTPSConnectionPool(*pargs, ssl_context=_ctx(), **ctor_kw)
             else:
-                c = HTTPConnectionPool(host, port, **ctor_kw)
+                c = HTTPConnectionPool(*pargs, **ctor_kw)
             url = path
         elif client == "ManagerPool":
             pm = urllib3.PoolManager(ssl_context=_ctx(), **ctor_kw)
